@@ -10,8 +10,17 @@ import json, os, re, shutil, subprocess, sys, time
 ROOT = os.path.dirname(os.path.dirname(os.path.abspath(__file__)))
 args = sys.argv[1:]
 tag = str(os.getpid())
-if args and args[0] == "--tag":
-    tag = args[1]; args = args[2:]
+record = False
+while args and args[0].startswith("--"):
+    if args[0] == "--tag":
+        tag = args[1]; args = args[2:]
+    elif args[0] == "--record":
+        # write the outcome into seeded/<id>/meta.json (key "check_result"), with the notes of
+        # tools/seeded_notes.json and the extra checks listed there
+        record = True; args = args[1:]
+    else:
+        break
+NOTES = json.load(open(os.path.join(ROOT, "tools", "seeded_notes.json")))
 snap = f"/tmp/vsnap-{tag}"
 wt = f"/tmp/rwt-{tag}"
 def sh(cmd, **kw):
@@ -30,7 +39,8 @@ try:
         d, _, ps = a.partition(":")
         d = os.path.abspath(d)
         meta = json.load(open(os.path.join(d, "meta.json")))
-        props = ps.split(",") if ps else [meta["property"]]
+        props = ps.split(",") if ps else [meta["property"]] + (NOTES.get(os.path.basename(d), {}).get("also", []) if record else [])
+        results = {}
         r = sh(f"git -C {wt} apply {d}/patch.diff")
         if r.returncode != 0:
             print(os.path.basename(d), "PATCH DOES NOT APPLY", r.stderr[:200]); continue
@@ -44,7 +54,19 @@ try:
                 rc = r.returncode
             except subprocess.TimeoutExpired:
                 rc, classes, first = -1, ["timeout"], "timeout"
+            if rc == 1 and not classes:
+                classes = [p + "/crash"]
+            results[p] = {"exit": rc, "classes": classes, "wall_s": round(time.time() - t0, 1), "violation_lines": len([l for l in r.stdout.splitlines() if l.startswith("VIOLATION")]) if rc != -1 else 0}
             print(os.path.basename(d), p, json.dumps({"exit": rc, "classes": classes, "wall_s": round(time.time() - t0, 1), "first": first}), flush=True)
+        if record and meta["property"] in results:
+            own = results[meta["property"]]
+            prev = meta.get("check_result", {})
+            meta["check_result"] = {"check": meta["property"], "tier": "quick", "exit": own["exit"], "violation_lines": own["violation_lines"], "violation_classes": own["classes"], "wall_s": own["wall_s"], "note": NOTES.get(os.path.basename(d), {}).get("note", prev.get("note", "")),
+                                    "how": "patch applied to a scratch worktree of /repo at the same commit; ./check run from a copy of /verif whose Cargo path points at that worktree (tools/seeded_wt.py --record)"}
+            oth = {k: {"exit": v["exit"], "violation_classes": v["classes"]} for k, v in results.items() if k != meta["property"]}
+            if oth:
+                meta["check_result"]["other_checks"] = oth
+            json.dump(meta, open(os.path.join(d, "meta.json"), "w"), indent=1)
         sh(f"git -C {wt} checkout -- . && git -C {wt} clean -fdq")
 finally:
     sh(f"git -C /repo worktree remove --force {wt}; git -C /repo worktree prune")
